@@ -298,3 +298,73 @@ mod tests {
         assert_eq!(c.d_floor(&xs), bi(2_000_000));
     }
 }
+
+// ---------------------------------------------------------------------------------------------
+// tiny exact rational
+
+#[derive(Clone, Debug)]
+pub struct Q {
+    pub n: BigInt,
+    pub d: BigInt,
+}
+
+impl Q {
+    pub fn new(n: BigInt, d: BigInt) -> Q {
+        if d.is_negative() {
+            Q { n: -n, d: -d }
+        } else {
+            Q { n, d }
+        }
+    }
+    pub fn int(x: u128) -> Q {
+        Q { n: bi(x), d: BigInt::one() }
+    }
+    pub fn ratio(a: u128, b: u128) -> Q {
+        Q::new(bi(a), bi(b))
+    }
+    /// a Decimal (18 places) given by its atomics
+    pub fn dec(atomics: u128) -> Q {
+        Q::new(bi(atomics), pow10(18))
+    }
+    pub fn add(&self, o: &Q) -> Q {
+        Q::new(&self.n * &o.d + &o.n * &self.d, &self.d * &o.d)
+    }
+    pub fn sub(&self, o: &Q) -> Q {
+        Q::new(&self.n * &o.d - &o.n * &self.d, &self.d * &o.d)
+    }
+    pub fn mul(&self, o: &Q) -> Q {
+        Q::new(&self.n * &o.n, &self.d * &o.d)
+    }
+    pub fn div(&self, o: &Q) -> Q {
+        Q::new(&self.n * &o.d, &self.d * &o.n)
+    }
+    pub fn lt(&self, o: &Q) -> bool {
+        &self.n * &o.d < &o.n * &self.d
+    }
+    pub fn le(&self, o: &Q) -> bool {
+        &self.n * &o.d <= &o.n * &self.d
+    }
+    pub fn gt(&self, o: &Q) -> bool {
+        o.lt(self)
+    }
+    pub fn ge(&self, o: &Q) -> bool {
+        o.le(self)
+    }
+    pub fn floor(&self) -> BigInt {
+        self.n.div_floor(&self.d)
+    }
+    pub fn min(&self, o: &Q) -> Q {
+        if self.le(o) {
+            self.clone()
+        } else {
+            o.clone()
+        }
+    }
+    pub fn is_neg(&self) -> bool {
+        self.n.is_negative()
+    }
+    pub fn to_f64(&self) -> f64 {
+        let s = pow10(12);
+        ((&self.n * &s).div_floor(&self.d)).to_f64().unwrap_or(f64::NAN) / 1e12
+    }
+}
